@@ -114,3 +114,414 @@ Proof.
       (do 16 (destruct j as [|j]; [vm_compute; reflexivity|])); vm_compute; reflexivity.
   - vm_compute. reflexivity.
 Qed.
+
+(* ---------- what a logical datagram does to a device, byte by byte ---------- *)
+Lemma wr_byte_other fs m la b x : ~ In x (targets false fs la) -> wr_byte fs m la b x = m x.
+Proof.
+  unfold wr_byte. generalize (targets false fs la) as l. intros l. revert m.
+  induction l as [|p r IH]; intros m H; [reflexivity|]. cbn [fold_left]. rewrite IH.
+  - destruct (x =? p) eqn:E; [|reflexivity]. apply N.eqb_eq in E. subst. exfalso. apply H. left; reflexivity.
+  - intros X. apply H. right; exact X.
+Qed.
+
+Lemma wr_byte_hit fs m la b p : targets false fs la = [p] -> wr_byte fs m la b p = b.
+Proof. intros H. unfold wr_byte. rewrite H. cbn [fold_left]. rewrite N.eqb_refl. reflexivity. Qed.
+
+Lemma lrw_dev_length fs : forall data m la, length (snd (lrw_dev fs m la data)) = length data.
+Proof.
+  induction data as [|b r IH]; intros m la; [reflexivity|]. cbn [lrw_dev].
+  destruct (lrw_dev fs (wr_byte fs m la b) (la + 1) r) as [m2 r'] eqn:E. cbn [snd length].
+  specialize (IH (wr_byte fs m la b) (la + 1)). rewrite E in IH. cbn [snd] in IH. rewrite IH. reflexivity.
+Qed.
+
+(* F1: memory that no byte of the datagram targets is untouched *)
+Lemma lrw_mem_other fs : forall data m la x,
+  (forall t, (t < length data)%nat -> ~ In x (targets false fs (la + N.of_nat t))) ->
+  fst (lrw_dev fs m la data) x = m x.
+Proof.
+  induction data as [|b r IH]; intros m la x H; [reflexivity|]. cbn [lrw_dev].
+  destruct (lrw_dev fs (wr_byte fs m la b) (la + 1) r) as [m2 r'] eqn:E. cbn [fst].
+  specialize (IH (wr_byte fs m la b) (la + 1) x). rewrite E in IH. cbn [fst] in IH. rewrite IH.
+  - apply wr_byte_other. specialize (H 0%nat (Nat.lt_0_succ _)). replace (la + N.of_nat 0) with la in H by lia. exact H.
+  - intros t Ht. specialize (H (S t) (proj1 (Nat.succ_lt_mono _ _) Ht)).
+    replace (la + 1 + N.of_nat t) with (la + N.of_nat (S t)) by lia. exact H.
+Qed.
+
+(* F2: a byte whose (single) target no later byte of the datagram targets ends up in that memory *)
+Lemma lrw_mem_hit fs : forall data m la t p,
+  (t < length data)%nat -> targets false fs (la + N.of_nat t) = [p] ->
+  (forall t', (t < t' < length data)%nat -> ~ In p (targets false fs (la + N.of_nat t'))) ->
+  fst (lrw_dev fs m la data) p = nth t data 0.
+Proof.
+  induction data as [|b r IH]; intros m la t p Ht Hp Hlater; [simpl in Ht; lia|]. cbn [lrw_dev].
+  destruct (lrw_dev fs (wr_byte fs m la b) (la + 1) r) as [m2 r'] eqn:E. cbn [fst].
+  destruct t as [|t].
+  - replace (la + N.of_nat 0) with la in Hp by lia. cbn [nth].
+    pose proof (lrw_mem_other fs r (wr_byte fs m la b) (la + 1) p) as O. rewrite E in O. cbn [fst] in O. rewrite O.
+    + apply wr_byte_hit. exact Hp.
+    + intros t' Ht'. specialize (Hlater (S t')). replace (la + 1 + N.of_nat t') with (la + N.of_nat (S t')) by lia.
+      apply Hlater. cbn [length]. lia.
+  - cbn [nth]. specialize (IH (wr_byte fs m la b) (la + 1) t p). rewrite E in IH. cbn [fst] in IH. apply IH.
+    + cbn [length] in Ht. lia.
+    + replace (la + 1 + N.of_nat t) with (la + N.of_nat (S t)) by lia. exact Hp.
+    + intros t' Ht'. specialize (Hlater (S t')). replace (la + 1 + N.of_nat t') with (la + N.of_nat (S t')) by lia.
+      apply Hlater. cbn [length]. lia.
+Qed.
+
+(* F3: what comes back: a byte no read-FMMU answers is passed through; a byte answered from
+   memory that no earlier byte of the datagram wrote shows that memory *)
+Lemma lrw_data fs : forall data m la t,
+  (t < length data)%nat ->
+  (forall t', (t' < t)%nat -> forall p, In p (targets true fs (la + N.of_nat t)) -> ~ In p (targets false fs (la + N.of_nat t'))) ->
+  nth t (snd (lrw_dev fs m la data)) 0 =
+  match targets true fs (la + N.of_nat t) with [] => nth t data 0 | p :: _ => m p end.
+Proof.
+  induction data as [|b r IH]; intros m la t Ht Hearlier; [simpl in Ht; lia|]. cbn [lrw_dev].
+  destruct (lrw_dev fs (wr_byte fs m la b) (la + 1) r) as [m2 r'] eqn:E. cbn [snd].
+  destruct t as [|t].
+  - cbn [nth]. unfold rd_byte. replace (la + N.of_nat 0) with la by lia. reflexivity.
+  - cbn [nth]. specialize (IH (wr_byte fs m la b) (la + 1) t). rewrite E in IH. cbn [snd] in IH. rewrite IH.
+    + replace (la + 1 + N.of_nat t) with (la + N.of_nat (S t)) by lia.
+      destruct (targets true fs (la + N.of_nat (S t))) as [|p l] eqn:T; [reflexivity|].
+      apply wr_byte_other. specialize (Hearlier 0%nat (Nat.lt_0_succ _) p). replace (la + N.of_nat 0) with la in Hearlier by lia.
+      apply Hearlier. left; reflexivity.
+    + cbn [length] in Ht. lia.
+    + intros t' Ht' p Hp. replace (la + 1 + N.of_nat t) with (la + N.of_nat (S t)) in Hp by lia.
+      replace (la + 1 + N.of_nat t') with (la + N.of_nat (S t')) by lia. apply (Hearlier (S t')); [lia|exact Hp].
+Qed.
+
+(* ---------- C08's consequence: one cycle's datagram on a configured EEPROM-path device ---------- *)
+Lemma wr_byte_keeps (b : N) : forall (l : list N) (m : mem) (p : N), m p = b ->
+  fold_left (fun m q => fun x => if x =? q then b else m x) l m p = b.
+Proof.
+  induction l as [|q r IH]; intros m p H; [exact H|]. cbn [fold_left]. apply IH.
+  destruct (p =? q); [reflexivity|exact H].
+Qed.
+
+Lemma wr_byte_hit_in fs m la b p : In p (targets false fs la) -> wr_byte fs m la b p = b.
+Proof.
+  unfold wr_byte. generalize (targets false fs la) as l. intros l. revert m.
+  induction l as [|q r IH]; intros m H; [contradiction|]. cbn [fold_left].
+  destruct H as [->|H]; [|apply IH; exact H].
+  apply wr_byte_keeps. rewrite N.eqb_refl. reflexivity.
+Qed.
+
+Lemma lrw_mem_hit_in fs : forall data m la t p,
+  (t < length data)%nat -> In p (targets false fs (la + N.of_nat t)) ->
+  (forall t', (t < t' < length data)%nat -> ~ In p (targets false fs (la + N.of_nat t'))) ->
+  fst (lrw_dev fs m la data) p = nth t data 0.
+Proof.
+  induction data as [|b r IH]; intros m la t p Ht Hp Hlater; [simpl in Ht; lia|]. cbn [lrw_dev].
+  destruct (lrw_dev fs (wr_byte fs m la b) (la + 1) r) as [m2 r'] eqn:E. cbn [fst].
+  destruct t as [|t].
+  - replace (la + N.of_nat 0) with la in Hp by lia. cbn [nth].
+    pose proof (lrw_mem_other fs r (wr_byte fs m la b) (la + 1) p) as O. rewrite E in O. cbn [fst] in O. rewrite O.
+    + apply wr_byte_hit_in. exact Hp.
+    + intros t' Ht'. specialize (Hlater (S t')). replace (la + 1 + N.of_nat t') with (la + N.of_nat (S t')) by lia.
+      apply Hlater. cbn [length]. lia.
+  - cbn [nth]. specialize (IH (wr_byte fs m la b) (la + 1) t p). rewrite E in IH. cbn [fst] in IH. apply IH.
+    + cbn [length] in Ht. lia.
+    + replace (la + 1 + N.of_nat t) with (la + N.of_nat (S t)) by lia. exact Hp.
+    + intros t' Ht'. specialize (Hlater (S t')). replace (la + 1 + N.of_nat t') with (la + N.of_nat (S t')) by lia.
+      apply Hlater. cbn [length]. lia.
+Qed.
+
+Section Cycle.
+  Variables (dv : devd) (fs : fregs) (regs : list (nat * smreg)) (win wout : N * N).
+  Hypothesis POST : dev_post dv fs regs win wout.
+  Hypothesis EEP : d_coe dv = false.
+  Hypothesis SMS16 : (length (d_sms dv) <= 16)%nat.
+
+  (* who can write [sm_start sm + t] of output sync manager k: only logical byte a' + t *)
+  Lemma only_one_writer k sm a' t la' :
+    areas_disjoint dv DOut -> In (k, sm) (pdl dv DOut) -> fs k = new_fmmu DOut a' (slen dv DOut k) (sm_start sm) ->
+    t < slen dv DOut k -> In (sm_start sm + t) (targets false fs la') -> la' = a' + t.
+  Proof using All.
+    intros AD Hin E Ht Hw. apply targets_in in Hw. destruct Hw as [j [Hj [Hfl Hm]]].
+    destruct (answering_fmmu _ _ _ _ _ false _ _ _ POST EEP Hfl Hm) as [sm2 [a2 [Hin2 [_ [_ [E2 [L1 [L2 Hp]]]]]]]].
+    cbn [dir_of] in *.
+    destruct (Nat.eq_dec j k) as [->|Hne].
+    - rewrite E in E2. inversion E2; subst. lia.
+    - exfalso. destruct (AD _ _ _ _ Hin2 Hin Hne) as [X|X]; lia.
+  Qed.
+
+  (* the bytes written to the device's outputs arrive in its output memory ... *)
+  Theorem outputs_arrive k sm m la data :
+    areas_disjoint dv DOut -> In (k, sm) (pdl dv DOut) ->
+    exists a', fst wout <= a' /\ a' + slen dv DOut k <= snd wout /\
+      forall t, t < slen dv DOut k -> la <= a' -> a' + slen dv DOut k <= la + N.of_nat (length data) ->
+        fst (lrw_dev fs m la data) (sm_start sm + t) = nth (N.to_nat (a' + t - la)) data 0.
+  Proof using All.
+    intros AD Hin. destruct POST as [_ [_ [_ [Hmap _]]]]. rewrite EEP in Hmap. destruct Hmap as [_ Co].
+    destruct (chain_fmmu _ _ _ _ _ _ Co _ _ Hin) as [a' [A [B E]]].
+    exists a'. split; [exact A|]. split; [exact B|]. intros t Ht L1 L2.
+    apply lrw_mem_hit_in.
+    - lia.
+    - replace (la + N.of_nat (N.to_nat (a' + t - la))) with (a' + t) by lia.
+      apply targets_in. exists k. split; [pose proof (pdl_index_bound _ _ _ _ Hin); lia|].
+      rewrite E. split; [reflexivity|]. unfold fmap, new_fmmu; cbn.
+      replace ((a' <=? a' + t) && (a' + t <? a' + slen dv DOut k)) with true by lia. f_equal. lia.
+    - intros t' Ht' Hw. apply (only_one_writer k sm a' t) in Hw; auto. lia.
+  Qed.
+
+  (* ... and nowhere else on the device *)
+  Theorem outputs_nowhere_else m la data x :
+    (forall k sm, In (k, sm) (pdl dv DOut) -> ~ (sm_start sm <= x /\ x < sm_start sm + slen dv DOut k)) ->
+    fst (lrw_dev fs m la data) x = m x.
+  Proof using All.
+    intros Hx. apply lrw_mem_other. intros t Ht Hw. apply targets_in in Hw. destruct Hw as [j [Hj [Hfl Hm]]].
+    destruct (answering_fmmu _ _ _ _ _ false _ _ _ POST EEP Hfl Hm) as [sm2 [a2 [Hin2 [_ [_ [_ [L1 [L2 Hp]]]]]]]].
+    cbn [dir_of] in *. apply (Hx _ _ Hin2). lia.
+  Qed.
+
+  (* the device's input memory appears in its input window (provided the cycle's own output bytes
+     do not land in input memory: the two directions' areas are apart) *)
+  Theorem inputs_appear k sm m la data :
+    (forall k1 sm1 k2 sm2, In (k1, sm1) (pdl dv DIn) -> In (k2, sm2) (pdl dv DOut) ->
+       sm_start sm1 + slen dv DIn k1 <= sm_start sm2 \/ sm_start sm2 + slen dv DOut k2 <= sm_start sm1) ->
+    In (k, sm) (pdl dv DIn) ->
+    exists a', fst win <= a' /\ a' + slen dv DIn k <= snd win /\
+      forall t, t < slen dv DIn k -> la <= a' -> a' + slen dv DIn k <= la + N.of_nat (length data) ->
+        nth (N.to_nat (a' + t - la)) (snd (lrw_dev fs m la data)) 0 = m (sm_start sm + t).
+  Proof using All.
+    intros IO Hin. destruct POST as [_ [_ [_ [Hmap _]]]]. rewrite EEP in Hmap. destruct Hmap as [Ci _].
+    destruct (chain_fmmu _ _ _ _ _ _ Ci _ _ Hin) as [a' [A [B E]]].
+    exists a'. split; [exact A|]. split; [exact B|]. intros t Ht L1 L2.
+    set (tt := N.to_nat (a' + t - la)).
+    assert (Hla : la + N.of_nat tt = a' + t) by (subst tt; lia).
+    assert (Hmem : In (sm_start sm + t) (targets true fs (a' + t))).
+    { apply targets_in. exists k. split; [pose proof (pdl_index_bound _ _ _ _ Hin); lia|].
+      rewrite E. split; [reflexivity|]. unfold fmap, new_fmmu; cbn.
+      replace ((a' <=? a' + t) && (a' + t <? a' + slen dv DIn k)) with true by lia. f_equal. lia. }
+    assert (Huniq : forall q, In q (targets true fs (a' + t)) -> q = sm_start sm + t).
+    { intros q Hq. apply targets_in in Hq. destruct Hq as [j [Hj [Hfl Hm]]].
+      destruct (answering_fmmu _ _ _ _ _ true _ _ _ POST EEP Hfl Hm) as [sm2 [a2 [Hin2 [_ [_ [E2 [M1 [M2 Hp]]]]]]]].
+      cbn [dir_of] in *. destruct (Nat.eq_dec j k) as [->|Hne].
+      - rewrite E in E2. inversion E2; subst. lia.
+      - exfalso. pose proof (chain_subwindows_apart _ _ _ _ _ _ Ci _ _ _ _ Hin2 Hin Hne) as X.
+        rewrite E, E2 in X. cbn in X. lia. }
+    rewrite lrw_data.
+    - rewrite Hla. destruct (targets true fs (a' + t)) as [|q l] eqn:T; [contradiction|].
+      rewrite (Huniq q); [reflexivity|left; reflexivity].
+    - subst tt. lia.
+    - intros t' Ht' p Hp Hw. rewrite Hla in Hp. apply Huniq in Hp. subst p.
+      apply targets_in in Hw. destruct Hw as [j [Hj [Hfl Hm]]].
+      destruct (answering_fmmu _ _ _ _ _ false _ _ _ POST EEP Hfl Hm) as [sm2 [a2 [Hin2 [_ [_ [_ [M1 [M2 Hp]]]]]]]].
+      cbn [dir_of] in *. destruct (IO _ _ _ _ Hin Hin2); lia.
+  Qed.
+
+  (* every byte of the datagram outside the device's input window comes back as it went in *)
+  Theorem data_elsewhere_passes m la data t :
+    (t < length data)%nat -> ~ (fst win <= la + N.of_nat t /\ la + N.of_nat t < snd win) ->
+    nth t (snd (lrw_dev fs m la data)) 0 = nth t data 0.
+  Proof using All.
+    intros Ht Hout.
+    assert (Hnil : targets true fs (la + N.of_nat t) = []).
+    { destruct (targets true fs (la + N.of_nat t)) as [|q l] eqn:T; [reflexivity|]. exfalso.
+      assert (Hq : In q (targets true fs (la + N.of_nat t))) by (rewrite T; left; reflexivity).
+      apply targets_in in Hq. destruct Hq as [j [Hj [Hfl Hm]]].
+      destruct (answering_fmmu _ _ _ _ _ true _ _ _ POST EEP Hfl Hm) as [sm2 [a2 [_ [W1 [W2 [_ [M1 [M2 _]]]]]]]].
+      cbn [dir_of] in *. apply Hout. lia. }
+    rewrite lrw_data; [rewrite Hnil; reflexivity|exact Ht|].
+    intros t' _ p Hp. rewrite Hnil in Hp. contradiction.
+  Qed.
+End Cycle.
+
+(* ---------- the whole group: one logical datagram through all its devices in ring order ---------- *)
+Record cdev := mkC { c_dv : devd; c_fs : fregs; c_regs : list (nat * smreg); c_win : N * N; c_wout : N * N; c_mem : mem }.
+
+Definition io_apart (dv : devd) : Prop :=
+  forall k1 sm1 k2 sm2, In (k1, sm1) (pdl dv DIn) -> In (k2, sm2) (pdl dv DOut) ->
+    sm_start sm1 + slen dv DIn k1 <= sm_start sm2 \/ sm_start sm2 + slen dv DOut k2 <= sm_start sm1.
+
+Definition cdev_ok (c : cdev) : Prop :=
+  dev_post (c_dv c) (c_fs c) (c_regs c) (c_win c) (c_wout c) /\ d_coe (c_dv c) = false /\
+  (length (d_sms (c_dv c)) <= 16)%nat /\ areas_disjoint (c_dv c) DOut /\ io_apart (c_dv c).
+
+Fixpoint ring (cs : list cdev) (la : N) (data : list N) : list mem * list N :=
+  match cs with
+  | [] => ([], data)
+  | c :: r => let '(m', d') := lrw_dev (c_fs c) (c_mem c) la data in
+              let '(ms, d'') := ring r la d' in (m' :: ms, d'')
+  end.
+
+Definition disj (w w' : N * N) : Prop := snd w <= fst w' \/ snd w' <= fst w.
+Fixpoint apart (cs : list cdev) : Prop :=
+  match cs with
+  | [] => True
+  | c :: r => (forall c', In c' r -> disj (c_win c) (c_win c') /\ disj (c_win c) (c_wout c') /\ disj (c_wout c) (c_win c')) /\ apart r
+  end.
+
+Definition inside (la : N) (len : nat) (w : N * N) : Prop := la <= fst w /\ snd w <= la + N.of_nat len.
+
+Definition dev_result (la : N) (data out : list N) (c : cdev) (m' : mem) : Prop :=
+  (forall k sm, In (k, sm) (pdl (c_dv c) DOut) -> exists a', fst (c_wout c) <= a' /\ a' + slen (c_dv c) DOut k <= snd (c_wout c) /\
+     forall t, t < slen (c_dv c) DOut k -> m' (sm_start sm + t) = nth (N.to_nat (a' + t - la)) data 0) /\
+  (forall x, (forall k sm, In (k, sm) (pdl (c_dv c) DOut) -> ~ (sm_start sm <= x /\ x < sm_start sm + slen (c_dv c) DOut k)) -> m' x = c_mem c x) /\
+  (forall k sm, In (k, sm) (pdl (c_dv c) DIn) -> exists a', fst (c_win c) <= a' /\ a' + slen (c_dv c) DIn k <= snd (c_win c) /\
+     forall t, t < slen (c_dv c) DIn k -> nth (N.to_nat (a' + t - la)) out 0 = c_mem c (sm_start sm + t)).
+
+Inductive Forall2' {A B} (P : A -> B -> Prop) : list A -> list B -> Prop :=
+| F2n : Forall2' P [] []
+| F2c a b la lb : P a b -> Forall2' P la lb -> Forall2' P (a :: la) (b :: lb).
+
+Theorem ring_cycle : forall cs la data,
+  Forall cdev_ok cs -> apart cs ->
+  Forall (fun c => inside la (length data) (c_win c) /\ inside la (length data) (c_wout c)) cs ->
+  let '(ms, out) := ring cs la data in
+  length out = length data /\
+  Forall2' (dev_result la data out) cs ms /\
+  (forall t, (t < length data)%nat ->
+     (forall c, In c cs -> ~ (fst (c_win c) <= la + N.of_nat t /\ la + N.of_nat t < snd (c_win c))) ->
+     nth t out 0 = nth t data 0).
+Proof.
+  induction cs as [|c r IH]; intros la data Hok Hap Hin; cbn [ring].
+  - split; [reflexivity|]. split; [constructor|]. intros; reflexivity.
+  - inversion Hok as [|? ? [POST [EEP [S16 [AD IO]]]] Hok']; subst. inversion Hin as [|? ? [Iw Io] Hin']; subst.
+    destruct Hap as [Hhead Hap'].
+    destruct (lrw_dev (c_fs c) (c_mem c) la data) as [m' d'] eqn:E.
+    assert (Ld : length d' = length data).
+    { pose proof (lrw_dev_length (c_fs c) data (c_mem c) la) as L. rewrite E in L. exact L. }
+    assert (Hin'' : Forall (fun c0 => inside la (length d') (c_win c0) /\ inside la (length d') (c_wout c0)) r) by (rewrite Ld; exact Hin').
+    specialize (IH la d' Hok' Hap' Hin''). destruct (ring r la d') as [ms out] eqn:R.
+    destruct IH as [Lo [Hres Hpass]].
+    (* what this device does with [data] *)
+    assert (Pass0 : forall t, (t < length data)%nat -> ~ (fst (c_win c) <= la + N.of_nat t /\ la + N.of_nat t < snd (c_win c)) -> nth t d' 0 = nth t data 0).
+    { intros t Ht Hout. pose proof (data_elsewhere_passes _ _ _ _ _ POST EEP S16 (c_mem c) la data t Ht Hout) as X. rewrite E in X. exact X. }
+    split; [lia|]. split.
+    + constructor.
+      * (* this device *)
+        split; [|split].
+        -- intros k sm Hk. destruct (outputs_arrive _ _ _ _ _ POST EEP S16 k sm (c_mem c) la data AD Hk) as [a' [A [B X]]].
+           exists a'. split; [exact A|]. split; [exact B|]. intros t Ht. specialize (X t Ht).
+           rewrite E in X. cbn [fst] in X. apply X; unfold inside in Io; lia.
+        -- intros x Hx. pose proof (outputs_nowhere_else _ _ _ _ _ POST EEP S16 (c_mem c) la data x Hx) as X. rewrite E in X. exact X.
+        -- intros k sm Hk. destruct (inputs_appear _ _ _ _ _ POST EEP S16 k sm (c_mem c) la data IO Hk) as [a' [A [B X]]].
+           exists a'. split; [exact A|]. split; [exact B|]. intros t Ht. specialize (X t Ht).
+           rewrite E in X. cbn [snd] in X. rewrite <- X; [|unfold inside in Iw; lia|unfold inside in Iw; lia].
+           (* the later devices pass this position through *)
+           apply Hpass; [unfold inside in Iw; lia|].
+           intros c' Hc'. destruct (Hhead c' Hc') as [D1 _]. unfold disj in D1.
+           replace (la + N.of_nat (N.to_nat (a' + t - la))) with (a' + t) by (unfold inside in Iw; lia). lia.
+      * (* the later devices: their outputs come from the original image *)
+        clear - Hres Hhead Pass0 Hin' Ld.
+        assert (G : forall cs' ms', Forall2' (dev_result la d' out) cs' ms' -> (forall c', In c' cs' -> In c' r) -> Forall2' (dev_result la data out) cs' ms').
+        { induction 1 as [|c1 m1 lc lm Hd _ IHf]; intros Sub; constructor.
+          - destruct Hd as [Ho [Hx Hi]]. split; [|split; [exact Hx|exact Hi]].
+            intros k sm Hk. destruct (Ho k sm Hk) as [a' [A [B X]]]. exists a'. split; [exact A|]. split; [exact B|].
+            intros t Ht. rewrite (X t Ht).
+            assert (Hc1 : In c1 r) by (apply Sub; left; reflexivity).
+            rewrite Forall_forall in Hin'. destruct (Hin' c1 Hc1) as [_ Io1]. unfold inside in Io1.
+            apply Pass0; [lia|].
+            destruct (Hhead c1 Hc1) as [_ [D2 _]]. unfold disj in D2.
+            replace (la + N.of_nat (N.to_nat (a' + t - la))) with (a' + t) by lia. lia.
+          - apply IHf. intros c' Hc'. apply Sub. right; exact Hc'. }
+        apply G; [exact Hres|auto].
+    + intros t Ht Hout. rewrite Hpass; [|lia|intros c' Hc'; apply Hout; right; exact Hc'].
+      apply Pass0; [exact Ht|apply Hout; left; reflexivity].
+Qed.
+
+(* ---------- ... instantiated with a group as C08's model configures it ---------- *)
+Fixpoint build (start : N) (ss : list dstate) (wi wo : list (N * N)) (ms : list mem) : list cdev :=
+  match ss, wi, wo, ms with
+  | s :: ss', w :: wi', w' :: wo', m :: ms' =>
+    mkC (ds_desc s) (ds_fmmus s) (ds_regs s) (start + fst w, start + snd w) (start + fst w', start + snd w') m
+    :: build start ss' wi' wo' ms'
+  | _, _, _, _ => []
+  end.
+
+Lemma build_in start : forall ss wi wo ms c, In c (build start ss wi wo ms) ->
+  exists w w', In w wi /\ In w' wo /\ c_win c = (start + fst w, start + snd w) /\ c_wout c = (start + fst w', start + snd w').
+Proof.
+  induction ss as [|s ss IH]; intros wi wo ms c H; [contradiction|].
+  destruct wi as [|w wi]; [contradiction|]. destruct wo as [|w' wo]; [contradiction|]. destruct ms as [|m ms]; [contradiction|].
+  cbn [build] in H. destruct H as [<-|H].
+  - exists w, w'. cbn. repeat split; auto.
+  - destruct (IH _ _ _ _ H) as [x [x' [A [B [C D]]]]]. exists x, x'. cbn. repeat split; auto.
+Qed.
+
+Definition dev_sane (dv : devd) : Prop :=
+  d_coe dv = false /\ (length (d_sms dv) <= 16)%nat /\ areas_disjoint dv DOut /\ io_apart dv.
+
+Lemma build_ok start len : forall dvs ss wi wo,
+  Forall4 (fun dv s win wout => ds_desc s = dv /\
+             dev_post dv (ds_fmmus s) (ds_regs s) (start + fst win, start + snd win) (start + fst wout, start + snd wout)) dvs ss wi wo ->
+  forall a b b' e ms, tiles a wi b -> tiles b' wo e -> b <= b' -> e <= N.of_nat len ->
+  Forall dev_sane dvs -> length ms = length dvs ->
+  let cs := build start ss wi wo ms in
+  Forall cdev_ok cs /\ apart cs /\
+  Forall (fun c => inside start len (c_win c) /\ inside start len (c_wout c)) cs.
+Proof.
+  induction 1 as [|dv s w w' dvs ss wi wo [Hd Hp] HF IH]; intros a b b' e ms Ti To Hb He Hs Hl; cbn [build].
+  - split; [constructor|]. split; [exact I|constructor].
+  - destruct ms as [|m ms]; [simpl in Hl; discriminate|]. cbn [build].
+    inversion Hs as [|? ? [S1 [S2 [S3 S4]]] Hs']; subst.
+    cbn [tiles] in Ti, To. destruct Ti as [Ti1 [Ti2 Ti3]]. destruct To as [To1 [To2 To3]].
+    assert (Mi : snd w <= b) by (apply tiles_mono in Ti3; exact Ti3).
+    assert (Mo : snd w' <= e) by (apply tiles_mono in To3; exact To3).
+    cbn [length] in Hl.
+    assert (Hb2 : b <= snd w') by lia.
+    assert (Hl2 : length ms = length dvs) by lia.
+    destruct (IH (snd w) b (snd w') e ms Ti3 To3 Hb2 He Hs' Hl2) as [I1 [I2 I3]].
+    split; [|split].
+    + constructor; [|exact I1]. unfold cdev_ok; cbn. split; [exact Hp|]. split; [exact S1|]. split; [exact S2|]. split; [exact S3|exact S4].
+    + cbn [apart]. split; [|exact I2]. intros c' Hc'.
+      destruct (build_in _ _ _ _ _ _ Hc') as [x [x' [Hx [Hx' [Ew Eo]]]]]. rewrite Ew, Eo. unfold disj; cbn.
+      destruct (tiles_inside _ _ _ _ Ti3 Hx) as [A1 [A2 A3]].
+      destruct (tiles_inside _ _ _ _ To3 Hx') as [B1 [B2 B3]].
+      split; [left; lia|]. split; [left; lia|right; lia].
+    + constructor; [|exact I3]. unfold inside; cbn. lia.
+Qed.
+
+(* the consequence clause of C08 as a theorem: for a group of EEPROM-configured devices brought up
+   as the model describes, one logical datagram over the group's image delivers every device's
+   output window to that device's output memory and to no other memory of any device, returns
+   every device's input memory in its input window, and returns the rest of the image unchanged *)
+Theorem group_cycle start max dvs g ms image :
+  cfg_group Debug start max (map init_dev dvs) = Ok g ->
+  Forall dev_sane dvs -> length ms = length dvs -> N.of_nat (length image) = g_pdi_len g ->
+  let cs := build start (g_devs g) (g_in g) (g_out g) ms in
+  let '(ms', out) := ring cs start image in
+  length out = length image /\
+  Forall2' (dev_result start image out) cs ms' /\
+  (forall t, (t < length image)%nat ->
+     (forall c, In c cs -> ~ (fst (c_win c) <= start + N.of_nat t /\ start + N.of_nat t < snd (c_win c))) ->
+     nth t out 0 = nth t image 0).
+Proof.
+  intros H Hs Hl Hi.
+  pose proof (group_devices _ _ _ _ H) as F. pose proof (group_windows _ _ _ _ H) as [T1 [T2 _]].
+  destruct (build_ok start (length image) _ _ _ _ F 0 (g_read_len g) (g_read_len g) (g_pdi_len g) ms T1 T2) as [A [B C]]; auto; try lia.
+  apply ring_cycle; assumption.
+Qed.
+
+(* non-vacuity of group_cycle: the example device of C08 alone in a group at logical 96 *)
+Example group_cycle_example :
+  exists g, cfg_group Debug 96 64 (map init_dev [ex_io]) = Ok g /\ dev_sane ex_io /\ g_pdi_len g = 15 /\
+    let cs := build 96 (g_devs g) (g_in g) (g_out g) [fun x => x mod 251] in
+    let '(ms', out) := ring cs 96 [0;0;0;0;0;0;0;0;0;0;0;0; 171;205;239] in
+    out = [4360 mod 251; 4361 mod 251; 4400 mod 251; 4401 mod 251; 4402 mod 251; 4403 mod 251; 4404 mod 251; 4405 mod 251;
+           4406 mod 251; 4407 mod 251; 4408 mod 251; 4409 mod 251; 171; 205; 239] /\
+    match ms' with [m'] => [m' 4352; m' 4353; m' 4354; m' 4355; m' 4360] = [171; 205; 239; 4355 mod 251; 4360 mod 251] | _ => False end.
+Proof.
+  eexists. split; [vm_compute; reflexivity|]. split.
+  - unfold dev_sane. split; [reflexivity|]. split; [cbn; lia|]. split.
+    + intros k sm k' sm' H1 H2 Hne. vm_compute in H1, H2. destruct H1 as [H1|[]]; destruct H2 as [H2|[]]. inversion H1; inversion H2; subst. contradiction.
+    + intros k1 sm1 k2 sm2 H1 H2. vm_compute in H1, H2. destruct H2 as [H2|[]]. inversion H2; subst.
+      destruct H1 as [H1|[H1|[]]]; inversion H1; subst; vm_compute; right; discriminate.
+  - split; [reflexivity|]. vm_compute. split; reflexivity.
+Qed.
+
+(* ---------- observation for the correspondence check: one cycle of a configured group ---------- *)
+Definition mem_of (base : N) (bytes : list N) : mem :=
+  fun x => if x <? base then 0 else nth (N.to_nat (x - base)) bytes 0.
+Definition dump (m : mem) (base : N) (n : nat) : list N := map (fun k => m (base + N.of_nat k)) (seq 0 n).
+
+Definition obs_cycle (md : mode) (start max : N) (dvs : list devd) (mems : list (list N)) (base : N) (image : list N) : list Z :=
+  match cfg_group md start max (map init_dev dvs) with
+  | Ok g =>
+    let cs := build start (g_devs g) (g_in g) (g_out g) (map (mem_of base) mems) in
+    let '(ms', out) := ring cs start image in
+    (map Z.of_N out ++ [-7] ++
+     concat (map (fun p => map Z.of_N (dump (fst p) base (length (snd p))) ++ [-8]) (combine ms' mems)))%Z
+  | _ => [(-97)%Z]
+  end.
